@@ -772,14 +772,17 @@ class Parser:
         return expr
 
     def _continue_parsing_expression(
-        self, left: Node, exclude_in: bool = False
+        self, left: Node, exclude_in: bool = False, allow_sequence: bool = True
     ) -> Node:
         """Continue parsing an expression after we already have the left-hand side.
 
-        This handles binary operators, conditional, sequence, and assignment
-        starting from an already-parsed left operand.
+        This handles postfix operators, binary operators, conditional, sequence,
+        and assignment starting from an already-parsed left operand.
         """
-        # First apply binary operators
+        # First member accesses / calls, e.g. ((a).b) or [[1].length]
+        left = self._continue_postfix_expression(left)
+
+        # Then binary operators
         left = self._continue_binary_expression(left, 0, exclude_in)
 
         # Then conditional
@@ -809,7 +812,7 @@ class Parser:
             left = AssignmentExpression(op, left, right)
 
         # Then sequence (comma)
-        if self._check(TokenType.COMMA):
+        if allow_sequence and self._check(TokenType.COMMA):
             expressions = [left]
             while self._match(TokenType.COMMA):
                 expressions.append(self._parse_assignment_expression(exclude_in))
@@ -962,8 +965,10 @@ class Parser:
 
     def _parse_postfix_expression(self) -> Node:
         """Parse postfix expression (member access, calls, postfix ++/--)."""
-        expr = self._parse_new_expression()
+        return self._continue_postfix_expression(self._parse_new_expression())
 
+    def _continue_postfix_expression(self, expr: Node) -> Node:
+        """Apply member accesses, calls and postfix ++/-- to an already parsed operand."""
         while True:
             if self._match(TokenType.DOT):
                 # Member access: a.b (keywords allowed as property names)
@@ -1140,8 +1145,11 @@ class Parser:
                 # Move up a level
                 current_depth -= 1
                 if current_depth >= 0:
-                    # Add this array as an element to the parent
-                    array_stack[current_depth].append(array_expr)
+                    # The inner array may only start the element: [[1].length, [2] + 1]
+                    element = self._continue_parsing_expression(
+                        array_expr, allow_sequence=False
+                    )
+                    array_stack[current_depth].append(element)
                 else:
                     # We're done
                     return array_expr
@@ -1170,7 +1178,10 @@ class Parser:
                         array_expr = ArrayExpression(array_stack[current_depth])
                         current_depth -= 1
                         if current_depth >= 0:
-                            array_stack[current_depth].append(array_expr)
+                            element = self._continue_parsing_expression(
+                                array_expr, allow_sequence=False
+                            )
+                            array_stack[current_depth].append(element)
                         else:
                             return array_expr
 
